@@ -7,6 +7,7 @@ import (
 	"fmt"
 	"strings"
 
+	"github.com/gammazero/nexus/v3/router"
 	"github.com/gammazero/nexus/v3/simrt"
 	"github.com/gammazero/nexus/v3/wamp"
 )
@@ -66,6 +67,9 @@ type Seq struct {
 	lenientTo  map[int]bool          // sessions ending concurrently in this step: what else reaches them is not determined
 	metaRender map[invKey]MetaRender // (caller idx, request) -> renderer of the meta RESULT
 	MetaKill   bool
+	historyLearnt map[string]bool
+	IgnoreMetaOnce bool
+	MkRealm    func(uri string) (*router.RealmConfig, *MRealm) // for addrealm steps
 	Authz      *TableAuthz // the realm's Authorizer (nil: none)
 	LocalAuthz bool        // RequireLocalAuthz
 	curIdx   []int   // slot -> index into Slots of the session currently there (-1 none)
@@ -76,12 +80,13 @@ type Seq struct {
 }
 
 func NewSeq(c *Ctx, w *World) *Seq {
-	return &Seq{C: c, W: w, Realms: map[string]*SeqRealm{}, metaRender: map[invKey]MetaRender{}}
+	return &Seq{C: c, W: w, Realms: map[string]*SeqRealm{}, metaRender: map[invKey]MetaRender{}, historyLearnt: map[string]bool{}}
 }
 
 func (q *Seq) AddRealm(m *MRealm) *SeqRealm {
 	r := &SeqRealm{M: m, B: NewBinder()}
 	q.Realms[m.URI] = r
+	delete(q.historyLearnt, m.URI)
 	return r
 }
 
@@ -548,7 +553,7 @@ func (q *Seq) Compare(r *SeqRealm, what string, exp []Exp, pending *MCall) {
 		if !a.used && q.lenientTo[a.sidx] {
 			continue
 		}
-		if !a.used && q.IgnoreMeta {
+		if !a.used && (q.IgnoreMeta || q.IgnoreMetaOnce) {
 			if ev, ok := a.msg.(*wamp.Event); ok {
 				if rs := q.render(r, a.sidx, ev); strings.Contains(rs[0], ",*,") {
 					continue
@@ -668,4 +673,33 @@ func (a *TableAuthz) Authorize(sess *wamp.Session, m wamp.Message) (bool, error)
 		}
 	}
 	return true, nil
+}
+
+// LearnHistorySubs binds the ids of the subscriptions that exist from the
+// start (event-history configuration) by asking the realm for them.
+func (q *Seq) LearnHistorySubs(slot int) {
+	s, _ := q.cur(slot)
+	if s == nil {
+		return
+	}
+	r := q.Realms[string(s.Realm)]
+	for _, sub := range r.M.Subs {
+		if sub.Hist == nil || sub.Deleted {
+			continue
+		}
+		if _, bound := r.B.subRev[sub.Sym]; bound {
+			continue
+		}
+		req := s.NextReq()
+		s.Send(&wamp.Call{Request: req, Options: wamp.Dict{}, Procedure: "wamp.subscription.lookup", Arguments: wamp.List{sub.Topic, wamp.Dict{"match": sub.Match}}})
+		q.Settle()
+		for _, rc := range s.Take() {
+			if res, ok := rc.Msg.(*wamp.Result); ok && res.Request == req && len(res.Arguments) > 0 {
+				if id, ok := wamp.AsID(res.Arguments[0]); ok && id != 0 {
+					r.B.sub[id] = sub.Sym
+					r.B.subRev[sub.Sym] = id
+				}
+			}
+		}
+	}
 }
